@@ -57,7 +57,7 @@ func (c *worker) loadBoth(stream, which string, data []byte, s sched, exactPulle
 		}
 		// cross-check of the extraction of the io-stack model: for the loaders that never inflate, the runner's
 		// full answer (outcome, bytes pulled, what draining the returned stream gives) re-decided in the kernel
-		if (which == "jpeg" || which == "webp") && len(data) > 0 && len(data) <= 160 && len(s.Sizes) <= 40 && (len(data)*7+len(s.Sizes))%23 == 0 {
+		if c.prop == "C07" && (which == "jpeg" || which == "webp") && len(data) > 0 && len(data) <= 160 && len(s.Sizes) <= 40 && (len(data)*7+len(s.Sizes))%23 == 0 {
 			full := c.askInflate(fmt.Sprintf("meta_load %s %s %s", which, hx(data), s.wire()))
 			var pulled int
 			ok := strings.HasPrefix(full, "ok ")
@@ -325,6 +325,15 @@ func genC06Files(c *ctx) []*mfile {
 		f.Tags = append(f.Tags, "damage="+damage)
 		out = append(out, f)
 	}
+	// the end of the iCCP chunk swept across the loader's 4096-byte buffer boundary at every alignment
+	// (stored deflate: the chunk's CRC starts at file offset size + 55)
+	for off := 4084; off <= 4108; off++ {
+		o := pngOpt{w: 7, h: 5, depth: 8, ctype: 2, nAnc: 0, icc: genProfile(rng, off-55, false), iccName: "p", iccLevel: 0, iccPos: 0, body: 600 + rng.Intn(200)}
+		f := buildPNG(rng, o)
+		f.Name = fmt.Sprintf("png-iccp-crc-at-%d", off)
+		f.Tags = append(f.Tags, "damage=")
+		out = append(out, f)
+	}
 	// a PNG without iCCP and one with an empty profile name variant
 	f0 := buildPNG(rng, pngOpt{w: 3, h: 4, depth: 8, ctype: 2, nAnc: 2, body: 50, smallAnc: true})
 	f0.Name = "png-no-iccp"
@@ -431,6 +440,13 @@ func smallCorpus(c *ctx) []*mfile {
 	add(buildWebP(rng, webpOpt{kind: "vp8x", w: 12, h: 9, icc: genProfile(rng, 50, false), flagICC: true, damage: "missing-iccp", body: 60}), "small-webp-vp8x-missing-iccp")
 	add(buildJPEG(rng, jpegOpt{w: 31, h: 21, precision: 8, ncomp: 3, nBefore: 2, nAfter: 1, body: 40, realTables: tables, noJFIF: true}), "small-jpeg-nojfif")
 	add(stdlibJPEG(rng, 37, 21, false), "small-jpeg-stdlib")
+	// bytes after the end of the RIFF chunk, and a RIFF size field that understates the file
+	wt := buildWebP(rng, webpOpt{kind: "vp8", w: 20, h: 10, body: 200})
+	wt.Data = append(wt.Data, randBytes(rng, 60)...)
+	add(wt, "small-webp-vp8-trailing-bytes")
+	wu := buildWebP(rng, webpOpt{kind: "vp8l", w: 9, h: 7, body: 120})
+	wu.Data[4], wu.Data[5], wu.Data[6], wu.Data[7] = 30, 0, 0, 0
+	add(wu, "small-webp-vp8l-understated-riff-size")
 	return out
 }
 
